@@ -126,12 +126,28 @@ def tr_config(run):
     if rows is None:
         note("option registry not recognised")
     v["options"] = rows
-    # lookup functions walk the registry with strcmp and stop at the empty name
-    for fn in ("snoopy_configfile_optionRegistry_getIdFromName", "snoopy_configfile_optionRegistry_getOptionValueAsString"):
-        b = func_body(cf, fn) or ""
-        if not re.search(r'for\s*\(\s*int\s+i\s*=\s*0\s*;\s*0\s*!=\s*strcmp\s*\(\s*snoopy_configfile_optionRegistry\s*\[\s*i\s*\]\s*\.name\s*,\s*""\s*\)\s*;\s*i\+\+\s*\)\s*\{\s*if\s*\(\s*strcmp\s*\(\s*snoopy_configfile_optionRegistry\s*\[\s*i\s*\]\s*\.name\s*,\s*optionName\s*\)\s*==\s*0\s*\)', b):
-            note("%s: lookup loop not recognised" % fn)
-            v["options"] = None
+    # lookup functions walk the registry with strcmp and stop at the empty name; getOptionValueAsString may have its own copy of the
+    # loop or call getIdFromName and index the registry with the result (NULL when not supported)
+    LOOP = (r'for\s*\(\s*int\s+(\w+)\s*=\s*0\s*;\s*0\s*!=\s*strcmp\s*\(\s*snoopy_configfile_optionRegistry\s*\[\s*\1\s*\]\s*\.name\s*,\s*""\s*\)\s*;\s*\1\+\+\s*\)\s*\{'
+            r'\s*if\s*\(\s*strcmp\s*\(\s*snoopy_configfile_optionRegistry\s*\[\s*\1\s*\]\s*\.name\s*,\s*optionName\s*\)\s*==\s*0\s*\)')
+    bid = func_body(cf, "snoopy_configfile_optionRegistry_getIdFromName") or ""
+    id_ok = bool(re.search(LOOP + r"\s*\{\s*return\s+\1\s*;\s*\}\s*\}\s*return\s+SNOOPY_CONFIGFILE_OPTION_NOT_SUPPORTED\s*;", bid))
+    if not id_ok:
+        note("snoopy_configfile_optionRegistry_getIdFromName: lookup loop not recognised")
+        v["options"] = None
+    bgv = func_body(cf, "snoopy_configfile_optionRegistry_getOptionValueAsString") or ""
+    own_loop = re.search(LOOP + r"\s*\{\s*return\s+snoopy_configfile_optionRegistry\s*\[\s*\1\s*\]\s*\.data\.getValueAsStringPtr\s*\(\s*\)\s*;\s*\}\s*\}\s*return\s+NULL\s*;", bgv)
+    mh = re.search(r"(?:int\s+)?(\w+)\s*=\s*snoopy_configfile_optionRegistry_getIdFromName\s*\(\s*optionName\s*\)\s*;", bgv)
+    via_helper = False
+    if mh and id_ok:
+        idv = mh.group(1)
+        ns = r"(?:SNOOPY_CONFIGFILE_OPTION_NOT_SUPPORTED|-1)"
+        guard = re.search(r"if\s*\(\s*(?:%s\s*==\s*%s|%s\s*==\s*%s)\s*\)\s*\{?\s*return\s+NULL\s*;\s*\}?" % (ns, idv, idv, ns), bgv)
+        ret = re.search(r"return\s+snoopy_configfile_optionRegistry\s*\[\s*%s\s*\]\s*\.data\.getValueAsStringPtr\s*\(\s*\)\s*;" % idv, bgv)
+        via_helper = bool(guard and ret and guard.start() < ret.start() and len(re.findall(r"\breturn\b", bgv)) == 2 and not re.search(r"\b(for|while|goto)\b", bgv))
+    if not (own_loop or via_helper):
+        note("snoopy_configfile_optionRegistry_getOptionValueAsString: neither the registry loop nor a lookup through getIdFromName recognised")
+        v["options"] = None
     # booleans
     gb = func_body(cf, "snoopy_configfile_getboolean") or ""
     m = re.search(r"if\s*\((.*?)\)\s*\{\s*ret\s*=\s*SNOOPY_TRUE\s*;\s*\}\s*else\s+if\s*\((.*?)\)\s*\{\s*ret\s*=\s*SNOOPY_FALSE\s*;\s*\}\s*else\s*\{\s*ret\s*=\s*notfound\s*;", gb, re.S)
@@ -280,24 +296,46 @@ def tr_config(run):
     # ---------------------------------------------------------------- util/parser.c
     pa = strip_comments(run.src("src/util/parser.c"))
     lb = func_body(pa, "snoopy_util_parser_strByteLength") or ""
-    shape = bool(re.search(r"long\s+long\s+numberInt\s*=\s*0\s*;", lb)
-                 and re.search(r"while\s*\(\s*isdigit\s*\(\s*\(\s*unsigned\s+char\s*\)\s*\*numberAsTextPtr\s*\)\s*\)\s*\{\s*if\s*\(\s*numberInt\s*<=\s*valMax\s*\)\s*\{\s*numberInt\s*=\s*numberInt\s*\*\s*10\s*\+\s*\(\s*\*numberAsTextPtr\s*-\s*'0'\s*\)\s*;\s*\}\s*numberAsTextPtr\+\+\s*;\s*\}", lb)
-                 and re.search(r"if\s*\(\s*numberInt\s*==\s*0\s*\)\s*\{\s*return\s+valDefault\s*;", lb)
-                 and re.search(r"long\s+long\s+factor\s*=\s*1\s*;", lb)
-                 and re.search(r"result\s*=\s*numberInt\s*\*\s*factor\s*;\s*if\s*\(\s*result\s*<\s*valMin\s*\)\s*result\s*=\s*valMin\s*;\s*if\s*\(\s*result\s*>\s*valMax\s*\)\s*result\s*=\s*valMax\s*;\s*return\s*\(\s*int\s*\)\s*result\s*;", lb))
+    def eq_(x, y):
+        return r"(?:%s\s*==\s*%s|%s\s*==\s*%s)" % (x, y, y, x)
+    shape, fm, CUR = False, None, None
+    mc = re.search(r"isdigit\s*\(\s*\(\s*unsigned\s+char\s*\)\s*\*\s*(\w+)\s*\)", lb)
+    if mc:
+        CUR = mc.group(1)
+        step = r"if\s*\(\s*(\w+)\s*<=\s*valMax\s*\)\s*\{\s*\1\s*=\s*\1\s*\*\s*10\s*\+\s*\(\s*\*\s*%s\s*-\s*'0'\s*\)\s*;\s*\}" % CUR
+        dig = r"isdigit\s*\(\s*\(\s*unsigned\s+char\s*\)\s*\*\s*%s\s*\)" % CUR
+        lw = re.search(r"while\s*\(\s*" + dig + r"\s*\)\s*\{\s*" + step + r"\s*%s\+\+\s*;\s*\}" % CUR, lb)
+        lf = re.search(r"for\s*\(\s*(?:%s\s*=\s*numberAsText)?\s*;\s*" % CUR + dig + r"\s*;\s*(?:%s\+\+|\+\+%s)\s*\)\s*\{\s*" % (CUR, CUR) + step + r"\s*\}", lb)
+        loop = lw or lf
+        init = re.search(r"\b%s\s*=\s*numberAsText\s*[;]" % CUR, lb)
+        if loop and init and init.start() < loop.end():
+            NUM = loop.group(1)
+            tail = lb[loop.end():]
+            mz = re.match(r"\s*if\s*\(\s*" + eq_(NUM, "0") + r"\s*\)\s*\{\s*return\s+valDefault\s*;\s*\}", tail)
+            mr = re.search(r"\b(\w+)\s*=\s*%s\s*\*\s*(\w+)\s*;\s*if\s*\(\s*\1\s*<\s*valMin\s*\)\s*\{?\s*\1\s*=\s*valMin\s*;\s*\}?\s*if\s*\(\s*\1\s*>\s*valMax\s*\)\s*\{?\s*\1\s*=\s*valMax\s*;\s*\}?\s*return\s*\(\s*int\s*\)\s*\1\s*;\s*$" % NUM, tail.rstrip())
+            if mz and mr:
+                RES, FAC = mr.group(1), mr.group(2)
+                decl = (re.search(r"long\s+long\s+%s\s*=\s*0\s*;" % NUM, lb) and re.search(r"long\s+long\s+%s\s*=\s*1\s*;" % FAC, lb)
+                        and re.search(r"long\s+long\s+%s\s*;" % RES, lb))
+                one = r"\(?\s*" + eq_(r"\*\s*%s" % CUR, r"'\\?.'") + r"\s*\)?"
+                cond_ = r"((?:" + one + r"\s*(?:\|\|)?\s*)+)"
+                between = tail[mz.end():mr.start()]
+                fm = re.fullmatch(r"\s*if\s*\(\s*" + cond_ + r"\)\s*\{\s*%s\s*=\s*([^;]+);\s*\}\s*else\s+if\s*\(\s*" % FAC + cond_ + r"\)\s*\{\s*%s\s*=\s*([^;]+);\s*\}\s*" % FAC, between, re.S)
+                # nothing else may write the three locals
+                writes = len(re.findall(r"\b(?:%s|%s|%s)\s*(?:[-+*/]?=)(?!=)" % (NUM, FAC, RES), lb))
+                shape = bool(decl and fm and writes == 2 + 3 + 3)
     if not shape:
-        note("strByteLength: saturating digit loop / zero fallback / min-max clamp not recognised")
+        note("strByteLength: saturating digit loop / zero fallback / suffix ladder / min-max clamp not recognised")
+        fm = None
     v["len_saturating"] = shape
-    cond_ = r"((?:\(\s*\*numberAsTextPtr\s*==\s*'\\?.'\s*\)\s*(?:\|\|)?\s*)+)"
-    fm = re.search(r"if\s*\(\s*" + cond_ + r"\)\s*\{\s*factor\s*=\s*([^;]+);\s*\}\s*else\s+if\s*\(\s*" + cond_ + r"\)\s*\{\s*factor\s*=\s*([^;]+);\s*\}\s*result", lb, re.S)
 
     def suffixes(cond):
         out = bytearray()
         for p in cond.split("||"):
-            mm = re.fullmatch(r"\(?\s*\*numberAsTextPtr\s*==\s*'(\\?.)'\s*\)?", p.strip())
+            mm = re.fullmatch(r"\(?\s*(?:\*\s*\w+\s*==\s*'(\\?.)'|'(\\?.)'\s*==\s*\*\s*\w+)\s*\)?", p.strip())
             if not mm:
                 return None
-            out += c_unescape(mm.group(1))
+            out += c_unescape(mm.group(1) or mm.group(2))
         return bytes(out)
     if fm:
         v["suffix_k"], v["suffix_m"] = suffixes(fm.group(1)), suffixes(fm.group(3))
